@@ -57,36 +57,79 @@ func rulesReadNCBI(c *Ctx, r *Report, rd, ex *ssa.Function) {
 	}
 	// ERR=>NIL
 	n := 0
-	instrs(rd, func(in ssa.Instruction) {
-		rt, ok := in.(*ssa.Return)
-		if !ok {
-			return
-		}
+	// a return that hands on both results of a helper of the package (return finish(sc, m)): the helper's returns are
+	// the returns
+	tailHelper := func(rt *ssa.Return) *ssa.Function {
 		ops := retOperands(rt)
-		if len(ops) != 2 || isNilConst(ops[1]) {
-			return
+		if len(ops) != 2 {
+			return nil
 		}
-		n++
-		k, isConst := ops[0].(*ssa.Const)
-		r.check(isConst && k.IsNil(), "ERR=>NIL", where, "error return", c.pos(rt.Pos()), "this return, whose error may be non-nil, returns a nil matrix", "this return may carry an error together with a (partially filled) matrix")
+		e0, ok0 := ops[0].(*ssa.Extract)
+		e1, ok1 := ops[1].(*ssa.Extract)
+		if !ok0 || !ok1 || e0.Tuple != e1.Tuple || e0.Index != 0 || e1.Index != 1 {
+			return nil
+		}
+		cl, ok := e0.Tuple.(*ssa.Call)
+		if !ok {
+			return nil
+		}
+		h := cl.Call.StaticCallee()
+		if h == nil || h.Blocks == nil || funcPkgPath(h) != funcPkgPath(rd) || h == ex {
+			return nil
+		}
+		return h
+	}
+	retFns := []*ssa.Function{rd}
+	instrs(rd, func(in ssa.Instruction) {
+		if rt, ok := in.(*ssa.Return); ok {
+			if h := tailHelper(rt); h != nil {
+				retFns = append(retFns, h)
+				r.analysed(fname(h))
+			}
+		}
 	})
+	for _, rf := range retFns {
+		rf := rf
+		instrs(rf, func(in ssa.Instruction) {
+			rt, ok := in.(*ssa.Return)
+			if !ok {
+				return
+			}
+			if rf == rd && tailHelper(rt) != nil {
+				return // judged in the helper
+			}
+			ops := retOperands(rt)
+			if len(ops) != 2 || isNilConst(ops[1]) {
+				return
+			}
+			n++
+			k, isConst := ops[0].(*ssa.Const)
+			r.check(isConst && k.IsNil(), "ERR=>NIL", where, "error return", c.pos(rt.Pos()), "this return, whose error may be non-nil, returns a nil matrix", "this return may carry an error together with a (partially filled) matrix")
+		})
+	}
 	r.floor("ERR=>NIL", n, 3, "error returns of ReadNCBI")
 	// the success return is dominated by the Err() test
 	s := newSymb(rd)
 	okFinal := false
-	instrs(rd, func(in ssa.Instruction) {
-		rt, ok := in.(*ssa.Return)
-		if !ok {
-			return
+	for _, rf := range retFns {
+		fs := s
+		if rf != rd {
+			fs = newSymb(rf)
 		}
-		ops := retOperands(rt)
-		if len(ops) == 2 && isNilConst(ops[1]) {
-			g := guardOf(s, rt.Block(), nil)
-			if strings.Contains(g, "!(call:bufio.(*Scanner).Err(") && strings.Contains(g, " != nil)") {
-				okFinal = true
+		instrs(rf, func(in ssa.Instruction) {
+			rt, ok := in.(*ssa.Return)
+			if !ok {
+				return
 			}
-		}
-	})
+			ops := retOperands(rt)
+			if len(ops) == 2 && isNilConst(ops[1]) {
+				g := guardOf(fs, rt.Block(), nil)
+				if strings.Contains(g, "!(call:bufio.(*Scanner).Err(") && strings.Contains(g, " != nil)") {
+					okFinal = true
+				}
+			}
+		})
+	}
 	r.check(okFinal, "ERR=>NIL", where, "success only after Err() == nil", c.pos(rd.Pos()), "the matrix is returned only on the edge where the scanner's Err() is nil", "the success return is not guarded by the scanner's Err(): a read failure yields a partial matrix with a nil error")
 	rulesScanErrFor(c, r, rd)
 	// B0 + GRD for both functions
@@ -315,6 +358,39 @@ func rulesScanErrFor(c *Ctx, r *Report, f *ssa.Function) {
 			for _, x := range b.Instrs {
 				if cl, ok := x.(*ssa.Call); ok && methIs(cl.Call.StaticCallee(), "bufio", "Scanner", "Err") && sy.expr(cl.Call.Args[0]).String() == recv {
 					return true
+				}
+				// a helper of the package that is handed the scanner and consults its Err() before each of its returns
+				if cl, ok := x.(*ssa.Call); ok {
+					if h := cl.Call.StaticCallee(); h != nil && h.Blocks != nil && funcPkgPath(h) == funcPkgPath(f) {
+						for i, a := range cl.Call.Args {
+							if i >= len(h.Params) || sy.expr(a).String() != recv {
+								continue
+							}
+							var errBlocks []*ssa.BasicBlock
+							instrs(h, func(in2 ssa.Instruction) {
+								if ec, ok := in2.(*ssa.Call); ok && methIs(ec.Call.StaticCallee(), "bufio", "Scanner", "Err") && ec.Call.Args[0] == ssa.Value(h.Params[i]) {
+									errBlocks = append(errBlocks, ec.Block())
+								}
+							})
+							all := len(errBlocks) > 0
+							instrs(h, func(in2 ssa.Instruction) {
+								if rt, ok := in2.(*ssa.Return); ok {
+									dom := false
+									for _, eb := range errBlocks {
+										if eb == rt.Block() || eb.Dominates(rt.Block()) {
+											dom = true
+										}
+									}
+									if !dom {
+										all = false
+									}
+								}
+							})
+							if all {
+								return true
+							}
+						}
+					}
 				}
 			}
 			return false
